@@ -1,9 +1,118 @@
+import TartModel.Proofs.InputLemmas
 import TartModel.Impl.Exec
+/-
+  C04 — variable values are coerced exactly as the specification prescribes.
+  Theorems about Impl/Input.lean `coerceVariable(s)` / `coerceInput` (leaves: scalar code generated
+  from the repository) and about the refusal path of `executeRequest`, for every schema, variable
+  definitions, raw JSON variables object and fuel.
+-/
 namespace Tart.C04
-open Tart
-theorem placeholder_mapSt_length {α β σ : Type} (f : α → σ → β × σ) (xs : List α) (s : σ) :
-    (mapSt f xs s).1.length = xs.length := by
-  induction xs generalizing s with
+open Tart Tart.Spec
+
+/-- Whatever value a variable ends up with (provided value or default), it is a coerced value of
+    the declared variable type: lists at every list level, input objects with only declared
+    fields, leaves by the scalar/enum input rules.  (`NoUndef` excludes the marker an invalid
+    *schema* default of an input field would leave behind.) -/
+theorem variable_value_typed (fuel : Nat) (S : Schema) (o : Oracle) (vd : VarDef) (raw : List (String × PyVal))
+    (v : PyVal) (h : coerceVariable fuel S o vd raw = .value v) (hu : NoUndef v) : HasType S vd.type v := by
+  unfold coerceVariable at h
+  cases hl : lookupKV vd.name raw with
+  | none =>
+    simp only [hl] at h
+    cases hd : vd.default with
+    | some d =>
+      simp only [hd] at h
+      cases hlit : coerceLiteral fuel S o none false vd.type d with
+      | none => simp [hlit] at h
+      | some dv =>
+        simp [hlit] at h; subst h
+        exact (coerceLiteral_const_typed fuel S o false vd.type d dv hlit).1
+    | none =>
+      simp only [hd] at h
+      by_cases hnn : vd.type.isNonNull = true <;> simp [hnn] at h
+  | some x =>
+    simp only [hl] at h
+    by_cases h1 : (isNone x && vd.type.isNonNull) = true
+    · simp [h1] at h
+    · simp only [h1] at h
+      by_cases he : (coerceInput fuel S o vd.type x).errors.isEmpty = true
+      · simp [he] at h; subst h
+        exact (coerceInput_typed fuel S o vd.type x (by simpa using he) hu).1
+      · simp [he] at h
+
+/-- A non-null variable that is missing (and has no default) or explicitly null is refused. -/
+theorem nonnull_missing_or_null_refused (fuel : Nat) (S : Schema) (o : Oracle) (vd : VarDef) (raw : List (String × PyVal))
+    (hnn : vd.type.isNonNull = true)
+    (h : (lookupKV vd.name raw = none ∧ vd.default = none) ∨ lookupKV vd.name raw = some .none) :
+    ∃ es, coerceVariable fuel S o vd raw = .errors es ∧ es ≠ [] := by
+  unfold coerceVariable
+  rcases h with ⟨h1, h2⟩ | h1
+  · simp [h1, h2, hnn]
+  · simp [h1, hnn, isNone]
+
+/-- An omitted variable without default stays absent (it is not turned into null). -/
+theorem omitted_stays_absent (fuel : Nat) (S : Schema) (o : Oracle) (vd : VarDef) (raw : List (String × PyVal))
+    (h1 : lookupKV vd.name raw = none) (h2 : vd.default = none) (hnn : vd.type.isNonNull = false) :
+    coerceVariable fuel S o vd raw = .absent := by
+  unfold coerceVariable
+  simp [h1, h2, hnn]
+
+/-- Explicit null is kept, distinct from absent, and the default is NOT applied to it. -/
+theorem explicit_null_kept (fuel : Nat) (S : Schema) (o : Oracle) (vd : VarDef) (raw : List (String × PyVal))
+    (h1 : lookupKV vd.name raw = some .none) (hnn : vd.type.isNonNull = false) :
+    coerceVariable (fuel + 1) S o vd raw = .value .none := by
+  unfold coerceVariable
+  cases hty : vd.type with
+  | nonNull t => simp [hty, TypeRef.isNonNull] at hnn
+  | list t => simp [h1, TypeRef.isNonNull, coerceInput, CoRes.ok]
+  | named tn => simp [h1, TypeRef.isNonNull, coerceInput, CoRes.ok]
+
+/-- A provided value is coerced on its own: the default plays no role. -/
+theorem provided_value_ignores_default (fuel : Nat) (S : Schema) (o : Oracle) (vd : VarDef) (raw : List (String × PyVal))
+    (x : PyVal) (h1 : lookupKV vd.name raw = some x) (d : Option Value) :
+    coerceVariable fuel S o { vd with default := d } raw = coerceVariable fuel S o vd raw := by
+  unfold coerceVariable
+  simp [h1]
+
+/-- Only declared names are looked up: two variable objects that agree on the declared names give
+    the same result (extra, undeclared variables are ignored). -/
+theorem undeclared_variables_ignored (fuel : Nat) (S : Schema) (o : Oracle) (vds : List VarDef)
+    (raw raw' : List (String × PyVal)) (h : ∀ vd ∈ vds, lookupKV vd.name raw = lookupKV vd.name raw') :
+    coerceVariables fuel S o vds raw = coerceVariables fuel S o vds raw' := by
+  unfold coerceVariables
+  have : ∀ vd ∈ vds, coerceVariable fuel S o vd raw = coerceVariable fuel S o vd raw' := by
+    intro vd hvd; unfold coerceVariable; rw [h vd hvd]
+  generalize (([], []) : Vars × List (String × String × Loc)) = acc
+  induction vds generalizing acc with
   | nil => rfl
-  | cons a as ih => simp [mapSt, ih]
+  | cons vd rest ih =>
+    simp only [List.foldl]
+    rw [this vd (List.mem_cons_self ..)]
+    exact ih (fun x hx => h x (List.mem_cons_of_mem _ hx)) (fun x hx => this x (List.mem_cons_of_mem _ hx)) _
+
+/-- When variable coercion reports an error the request is refused before anything runs:
+    `data` is null, no resolver is called, and there is one error entry per reported offence. -/
+theorem refused_before_resolvers (fuel : Nat) (S : Schema) (o : Oracle) (env : Env) (doc : Document)
+    (opName : Option String) (rawVars : List (String × PyVal)) (root : PyVal) (op : Operation)
+    (hsel : selectOperation doc opName = some op)
+    (hbad : (coerceVariables fuel S o op.varDefs rawVars).2 ≠ []) :
+    (executeRequest fuel S o env doc opName rawVars root).data = .none ∧
+    (executeRequest fuel S o env doc opName rawVars root).calls = [] ∧
+    (executeRequest fuel S o env doc opName rawVars root).errors.length = (coerceVariables fuel S o op.varDefs rawVars).2.length := by
+  unfold executeRequest
+  simp only [hsel]
+  cases hcv : coerceVariables fuel S o op.varDefs rawVars with
+  | mk vars verrs =>
+    rw [hcv] at hbad
+    have : (!verrs.isEmpty) = true := by cases verrs <;> simp_all
+    simp [this]
+
+/-- non-vacuity -/
+def S0 : Schema := ⟨[.scalar "Int", .input "In" [⟨"x", .nonNull (.named "Int"), none⟩, ⟨"y", .named "Int", some (.int "7")⟩]], "Query", none, none⟩
+def o0 : Oracle := ⟨fun _ => none⟩
+example : coerceVariable 9 S0 o0 ⟨"v", .list (.named "In"), none, ⟨1, 1⟩⟩ [("v", .dict [("x", .int 1)])]
+    = .value (.list [.dict [("x", .int 1), ("y", .int 7)]]) := by rfl
+example : (match coerceVariable 9 S0 o0 ⟨"v", .named "In", none, ⟨1, 1⟩⟩ [("v", .dict [("z", .int 1)])] with
+    | .errors es => es.length | _ => 0) = 2 := by rfl
+
 end Tart.C04
